@@ -39,6 +39,37 @@ def _srckey(src):
     return None
 
 
+def _path_chain(prog, cg, eff, chk, W1, entry, rewriters, label):
+    """Crate.path(child) = Crate.path(parent) + title(child) + ';'.  The subtree rewriter receives the
+    parent's path as an argument; every call to it - from the operation and from itself - must
+    hand down a value its caller has just stored in Crate.path, not the path the caller received."""
+    ip = vf.Interp(prog, cg, eff)
+    ip.run(entry)
+    names = {g.qualname for g in rewriters}
+    pw = [w for w in ip.writes if (w.table or '').lower() == 'crate' and w.column == 'path' and w.kind == 'update']
+    calls = [c for c in ip.calls if c[1] in names]
+    if not calls or not pw:
+        chk.unknown(W1, label + ' path chain', 'no call of the subtree rewriter or no Crate.path write was evaluated')
+        return
+    seen = set()
+    for (seq, callee, args, node, caller) in calls:
+        own = [w for w in pw if w.func is caller and w.seq < seq]
+        key = (caller.qualname, locstr(node))
+        if key in seen:
+            continue
+        seen.add(key)
+        inst = '%s: %s hands the path it stored (%s) down to %s at %s' % (
+            label, _short(caller.qualname), own[-1].loc if own else '?', _short(callee), locstr(node))
+        if own and any(a is w.value for a in args for w in own):
+            chk.ok(W1, inst, locstr(node))
+        else:
+            chk.violation(W1, '%s|%s->%s path argument' % (label, _short(caller.qualname), _short(callee)), locstr(node),
+                          '%s: none of the arguments is the value %s stored in Crate.path before the call (arguments: %s): '
+                          'the sub-crates below get a path that does not continue their parent\'s path, so Crate.path '
+                          'disagrees with CrateParentList / CrateHierarchy' % (
+                              inst, _short(caller.qualname), ', '.join(vf.shape(a)[:50] for a in args)))
+
+
 def run(tier='quick'):
     prog = program.load()
     cg = callgraph.get(prog)
@@ -144,6 +175,7 @@ def run(tier='quick'):
             inst = '%s: Crate.path rewritten for the crate (UPDATE .. WHERE id = id()) and for its subtree (a reached function that updates Crate.path along children())' % _short(qn)
             if (own or op == 'move' and sub) and sub:
                 chk.ok(W1, inst, (own[0].loc if own else locstr(f.node)))
+                _path_chain(prog, cg, eff, chk, W1, f, [reach[k][0] for k in sub], _short(qn))
             else:
                 chk.violation(W1, '%s|paths not rewritten' % _short(qn), locstr(f.node),
                               '%s: %s%s - Crate.path keeps spelling the old position while CrateParentList / '
@@ -189,6 +221,16 @@ def run(tier='quick'):
     tmaps = rowrules.expand_sites(prog, cg, eff, c18.table_functions(prog, 'track_table'))
     c01._codec_agreement(prog, chk, W3, maps + tmaps)
     c08._cleanup(prog, cg, eff, chk, W4)
+    # ---- W7 / W8 ---------------------------------------------------------------------------
+    from .. import domains
+    W7 = chk.rule('W7', 'identifier-domain typing: every trigger body, view and library statement of every '
+                        'supported version compares, assigns and inserts identifier columns only from columns '
+                        'naming the same kind of row (spec/domains.json, cross-checked with the declared foreign keys)',
+                  floor=150)
+    domains.apply_rule(prog, eff, chk, W7)
+    W8 = chk.rule('W8', 'the per-version copies of the triggers that keep the 2.x sibling and entry chains and the '
+                        'views over them are identical in every supported 2.x version', floor=5)
+    c08.chain_trigger_siblings(prog, chk, W8, views=('playlistallparent', 'playlistallchildren', 'playlistpath'))
     # ---- W5 ------------------------------------------------------------------------------
     cats = rowrules.version_catalogs(prog)
     for en in order:
